@@ -23,6 +23,8 @@ type C03Case struct {
 	Entry   string `json:"entry"` // parse | parsestring | parsereader | write | bytesdecoder | decoder
 	BufSize int    `json:"bufsize,omitempty"`
 	EOFData bool   `json:"eof_with_data,omitempty"`
+	// ZeroReads > 0 (reader entry points): one Read in ZeroReads answers (0, nil) first
+	ZeroReads int `json:"zero_reads,omitempty"`
 	Kind    string `json:"kind,omitempty"`
 	// Scale: the case is a SCALING probe — the document is built from (format,
 	// family, n) at sizes n and 4n and fed in tiny pieces (Entry: write1 |
@@ -201,7 +203,7 @@ func prepareEntry(cd *codec, c *C03Case, vis model.VisitorIface) (run func() (er
 			return err, ""
 		}, true
 	case "parsereader":
-		rd := &chunkReader{chunks: chunks, eofWithData: c.EOFData}
+		rd := &chunkReader{chunks: chunks, eofWithData: c.EOFData, zeroEvery: c.ZeroReads}
 		return func() (error, string) {
 			_, err := cd.ParseReader(rd, vis)
 			return err, ""
@@ -221,7 +223,7 @@ func prepareEntry(cd *codec, c *C03Case, vis model.VisitorIface) (run func() (er
 		if bs <= 0 {
 			bs = 64
 		}
-		rd := &chunkReader{chunks: chunks, eofWithData: c.EOFData}
+		rd := &chunkReader{chunks: chunks, eofWithData: c.EOFData, zeroEvery: c.ZeroReads}
 		limit := len(c.Data) + 2
 		return func() (error, string) {
 			var dec pullDecoder
@@ -370,7 +372,7 @@ func c03SecondUse(cd *codec, c *C03Case, info *CaseInfo) string {
 		if c.Entry == "bytesdecoder" {
 			dec = cd.NewBytesDecoder(data, cnt)
 		} else {
-			dec = cd.NewDecoder(&chunkReader{chunks: chunks, eofWithData: c.EOFData}, bs, cnt)
+			dec = cd.NewDecoder(&chunkReader{chunks: chunks, eofWithData: c.EOFData, zeroEvery: c.ZeroReads}, bs, cnt)
 		}
 		run = func() {
 			var first error
@@ -564,6 +566,9 @@ func drawC03(t *rapid.T) any {
 	if c.Entry == "parsereader" || c.Entry == "write" || c.Entry == "decoder" {
 		c.Cuts = gen.Cuts(t, len(c.Data), nil)
 		c.EOFData = rapid.Bool().Draw(t, "eofdata")
+		if rapid.IntRange(0, 3).Draw(t, "zeroreads") == 0 {
+			c.ZeroReads = rapid.IntRange(1, 3).Draw(t, "zeroevery")
+		}
 	}
 	if c.Entry == "decoder" {
 		c.BufSize = rapid.SampledFrom([]int{1, 2, 3, 7, 16, 64, 4096}).Draw(t, "bufsize")
@@ -589,7 +594,7 @@ type gen2Span struct{}
 func init() {
 	register(&Property{
 		ID:    "C03",
-		Rule:  "inputs: random bytes; hostile constants from the statement (every class of IEEE bit pattern in every float width of the binary formats, CBOR tag/half float/minors 28-30/lengths 2^63..2^64-1, UBJSON bad length markers/unterminated containers/$N, JSON broken escapes and lone surrogates) alone, with random tails or spliced into valid documents; every proper prefix of valid own/foreign documents; 1-2 byte-level mutations of valid documents (bit flip, insert, delete, overwrite, hostile length fields); long concatenations for the linear bound x chunkings x entry points {Parse, ParseString, ParseReader, Write, NewBytesDecoder+Next, NewDecoder+Next with buffer sizes 1..4096}; 2 of 3 cases use the SAME parser (Parse/ParseString/Write) or decoder (3 more Next calls) once more after the first input ended, whatever its outcome (half of them with an empty input in between), and that second use must return without panic or hang; oracle = no panic, no hang (watchdog), Next loop <= len+2 calls, TotalAlloc <= 64KiB+buf+64*len, ParseString leaves its argument intact, and inputs the reference decoder classifies as 'needs more input' must end in an error other than io.EOF at every end-aware entry point; deterministic part: every prefix (incl. empty and full) of a fixed set of valid documents and every hostile constant x all 6 entry points; non-trivial = at least one event delivered or input >= 2 bytes; distinct by case hash; scaling probes (deterministic): 21 single-construct document families (runs of backslashes, escapes, digits, whitespace, nesting, members, no-ops, long strings/keys/byte strings ...) at 30 KB and 120 KB fed byte-wise through Write, through ParseReader in 3-byte reads and through a pull decoder with a 3-byte buffer; a violation needs more than 1 s of process CPU time for the larger input AND more than 8x the CPU time of the smaller one",
+		Rule:  "inputs: random bytes; hostile constants from the statement (every class of IEEE bit pattern in every float width of the binary formats, CBOR tag/half float/minors 28-30/lengths 2^63..2^64-1, UBJSON bad length markers/unterminated containers/$N, JSON broken escapes and lone surrogates) alone, with random tails or spliced into valid documents; every proper prefix of valid own/foreign documents; 1-2 byte-level mutations of valid documents (bit flip, insert, delete, overwrite, hostile length fields); long concatenations for the linear bound x chunkings x entry points {Parse, ParseString, ParseReader, Write, NewBytesDecoder+Next, NewDecoder+Next with buffer sizes 1..4096; 1 in 4 readers answer a Read with (0, nil) before every 1st..3rd data read}; 2 of 3 cases use the SAME parser (Parse/ParseString/Write) or decoder (3 more Next calls) once more after the first input ended, whatever its outcome (half of them with an empty input in between), and that second use must return without panic or hang; oracle = no panic, no hang (watchdog), Next loop <= len+2 calls, TotalAlloc <= 64KiB+buf+64*len, ParseString leaves its argument intact, and inputs the reference decoder classifies as 'needs more input' must end in an error other than io.EOF at every end-aware entry point; deterministic part: every prefix (incl. empty and full) of a fixed set of valid documents and every hostile constant x all 6 entry points; non-trivial = at least one event delivered or input >= 2 bytes; distinct by case hash; scaling probes (deterministic): 21 single-construct document families (runs of backslashes, escapes, digits, whitespace, nesting, members, no-ops, long strings/keys/byte strings ...) at 30 KB and 120 KB fed byte-wise through Write, through ParseReader in 3-byte reads and through a pull decoder with a 3-byte buffer; a violation needs more than 1 s of process CPU time for the larger input AND more than 8x the CPU time of the smaller one",
 		New:   func() any { return &C03Case{} },
 		Draw:  drawC03,
 		Check: checkC03,
